@@ -60,9 +60,6 @@ package exif2
 
 //@ pool bufferPool *buffer
 
-//@ func ifds.IfdType.TagName
-//@   pure
-
 //@ func (*ifdReader).fastRead
 //@   props C01 C02 C08
 //@   requires irOK(ir) && n >= 0
